@@ -69,7 +69,10 @@ Proof.
       assert (H1 : cinv R (add_fdone s k)).
       { destruct H as [A B C D E F]. constructor; cbn; auto. intros k0. specialize (F k0). unfold outstanding in *. cbn in *.
         rewrite cnt_app. cbn. lia. }
-      destruct k as [|id]; [apply IH1; exact H1|]. eapply cinv_fields; [exact H1|reflexivity..].
+      destruct k as [|id]; [apply IH1; exact H1|].
+      assert (H2 : cinv R (upd_log (add_fdone s (KApp id)) (id, 0, []))) by (eapply cinv_fields; [exact H1|reflexivity..]).
+      cbn [a_next upd_log]. destruct (nlookup id _) as [[id2 payload]|]; [|exact H2].
+      apply IH3. apply cinv_queue. exact H2.
     + (* flush *)
       intros s R k H. cbn [flush]. pose proof H as [A B C D E F]. rewrite A. cbn [andb].
       destruct (a_flushing s) eqn:Ef.
@@ -121,9 +124,10 @@ Qed.
 
 Theorem wastep_inv s o : cinv [] s -> cinv [] (wastep s o).
 Proof.
-  intros H. destruct o as [rid|wid payload|opc payload|accept]; cbn [wastep].
+  intros H. destruct o as [rid|wid payload|opc payload|wid wid2 payload2|accept]; cbn [wastep].
   - apply (proj2 (proj2 (fuel_mutual wa_fuel))). eapply cinv_fields; [exact H|reflexivity..].
   - apply (proj2 (proj2 (fuel_mutual wa_fuel))). apply cinv_queue. exact H.
+  - eapply cinv_fields; [exact H|reflexivity..].
   - eapply cinv_fields; [exact H|reflexivity..].
   - set (s1 := if a_rwait s && negb (match a_inq s with [] => true | _ => false end) then _ else s).
     assert (H1 : cinv [] s1).
